@@ -74,14 +74,14 @@ pub fn peer_message(op: &Op) -> Option<(RMsg, u32, u32)> {
             args.truncate(*nargs);
             (command("play", *txid, V::Null, args), *msid, 0)
         }
-        Op::CloseStream { id, raw } | Op::DeleteStream { id, raw } => {
+        Op::CloseStream { id, raw, on } | Op::DeleteStream { id, raw, on } => {
             let name = if matches!(op, Op::CloseStream { .. }) { "closeStream" } else { "deleteStream" };
             let args = match (raw, id) {
                 (Some(x), _) => vec![amf::num(*x)],
                 (None, Some(i)) => vec![amf::num(*i as f64)],
                 (None, None) => vec![],
             };
-            (command(name, 0.0, V::Null, args), id.unwrap_or(0), 0)
+            (command(name, 0.0, V::Null, args), on.unwrap_or(id.unwrap_or(0)), 0)
         }
         Op::Audio { msid, ts, data } => (RMsg::Audio(data.clone()), *msid, *ts),
         Op::Video { msid, ts, data } => (RMsg::Video(data.clone()), *msid, *ts),
@@ -246,6 +246,13 @@ fn sel_stream(m: &Model, s: StreamSel) -> Option<u32> {
     }
 }
 
+fn carrier(m: &Model, s: StreamSel, rng: &mut Rng) -> Option<u32> {
+    if s == StreamSel::NoArg || m.streams.is_empty() || !rng.chance(1, 4) {
+        return None;
+    }
+    m.streams.keys().nth(rng.usize(0, m.streams.len() - 1)).cloned()
+}
+
 /// the number sent for selections that do not name a stream by an exact u32
 fn sel_raw(m: &Model, s: StreamSel, rng: &mut Rng) -> Option<f64> {
     let first = m.streams.keys().next().cloned().unwrap_or(1) as f64;
@@ -299,8 +306,11 @@ pub fn resolve(sym: Sym, m: &Model, rng: &mut Rng, step: usize) -> Op {
             };
             Op::Play { msid: sel_stream(m, s).unwrap_or(0), txid, key, nargs }
         }
-        Sym::Close(s) => Op::CloseStream { id: sel_stream(m, s), raw: sel_raw(m, s, rng) },
-        Sym::Delete(s) => Op::DeleteStream { id: sel_stream(m, s), raw: sel_raw(m, s, rng) },
+        // a command with a numeric argument names its stream by the argument, whatever message
+        // stream carries it: one in four travels on another existing stream (without an argument
+        // the carrying stream may be what is meant, so those stay on stream 0)
+        Sym::Close(s) => Op::CloseStream { id: sel_stream(m, s), raw: sel_raw(m, s, rng), on: carrier(m, s, rng) },
+        Sym::Delete(s) => Op::DeleteStream { id: sel_stream(m, s), raw: sel_raw(m, s, rng), on: carrier(m, s, rng) },
         Sym::Audio(s) => {
             let (ts, data) = media(rng);
             Op::Audio { msid: sel_stream(m, s).unwrap_or(0), ts, data }
